@@ -247,7 +247,9 @@ pub fn run_case(case: &Case) -> CaseResult {
 	let mut trace = Hasher64::new();
 	let mut beh = Hasher64::new();
 	let sim = Sim::new(case.seed);
-	let sr = 8000u32;
+	// (a quarter of the cases at 96 kHz: what depends on the stream's sample rate - e.g. how long the
+	// decoder waits on a full ring - is not the same at every rate)
+	let sr = if case.seed % 4 == 0 { 96_000u32 } else { 8000u32 };
 	let cfg = WorldConfig {
 		sample_rate: sr,
 		internal_buffer_size: 16,
@@ -391,7 +393,7 @@ pub fn run_case(case: &Case) -> CaseResult {
 								if at == tick {
 									world.exec(&Op::Sound {
 										sound: sound_idx,
-										cmd: SoundCmd::SeekTo(pos as f64 / 8000.0 + 0.25 / 8000.0),
+										cmd: SoundCmd::SeekTo(pos as f64 / sr as f64 + 0.25 / sr as f64),
 									});
 								}
 							}
@@ -819,6 +821,14 @@ pub fn run_case(case: &Case) -> CaseResult {
 	for (role, name, msg) in sim.take_panics() {
 		res.fail(Violation::new("no-panic", format!("task-panic: {}", panic_signature(&msg)), format!("{role:?} task {name} panicked: {msg}")));
 	}
+	// a decoder with nothing to do waits; a wait of zero length is a busy spin
+	if res.violation.is_none() && sim.zero_sleeps() > 0 {
+		res.fail(Violation::new(
+			"busy-spin",
+			"decoder-waits-zero-time",
+			format!("the decoder thread of a {sr} Hz stream asked {} times to sleep for a duration of zero: with nothing to do it spins", sim.zero_sleeps()),
+		));
+	}
 	if spin_checked {
 		res.hit("spin_windows_checked");
 	}
@@ -867,7 +877,7 @@ impl Check for C10 {
 			rule: "half of the cases enumerate, for a 12-packet stream, (fault: the k-th decode call fails for k = 0..13, the k-th seek call fails for k = 0..3 incl. the one inside into_sound, or no fault) x (ending: natural end, stop, rejected by a full track, track dropped, manager dropped) x (decoder pace: ahead, in time, starving, stalled) with seeded timing; the other half draws stream length, packet sizes, seek granularity, looping, fault position, ending, pace, seek command and a paused track from the seed; in every case the sound may additionally be held (paused before a seeded callback, start time far in the future, start time on a clock that is never started) so that faults strike a sound that is not advancing; a third of the scheduled cases are a looping sound nobody stops with one failing decode call, while the gameplay task polls state() / pop_error(); a sixteenth of all cases race the end of a short stream under random schedules with a decoder that is slow compared with the audio task (extra yield points per decode call, bursty schedules): the last frames and the end flag arrive while a chunk is being rendered; a stream that was simply played to its end must have been heard to its last source frame; non-trivial = every case (a decoder thread is created or into_sound fails); distinct = hash of (per-callback reported state, frames heard, errors fired)",
 			assumptions: vec![
 				"liveness is judged after faults have stopped, under a fair schedule: rounds of (one callback + 64 decoder loop iterations), at most (stream length + ring capacity + 64) / 64 + 8 rounds".into(),
-				"busy spin = a budget of >= 20 loop iterations used up with >= 2 errors raised, no frame delivered, no sleep and no exit".into(),
+				"busy spin = a budget of >= 20 loop iterations used up with >= 2 errors raised, no frame delivered, no sleep and no exit; or any sleep of zero duration asked for by a decoder thread (a quarter of the cases run at 96 kHz instead of 8 kHz)".into(),
 				"the decoder's 1 ms sleep is an event ('nothing to do'), never waited for in real time".into(),
 			],
 			components: vec![
